@@ -10,7 +10,7 @@ load_miros()
 import miros.hsm as hsm                       # noqa: E402
 from miros.event import signals, return_status, Event   # noqa: E402
 
-NSTATES = 20
+NSTATES = 64      # the deep two-chain charts of C20 use 61
 USER = ["A", "B", "C", "D", "E", "F", "G", "H", "T", "U_SIGNAL"]    # U_SIGNAL: a user signal named like the built-in ones
 for _n in USER:
     signals.append(_n)
